@@ -93,6 +93,7 @@ pub fn run_pair(prop: &'static str, idx: u64, rng: &mut Rng, ctx: &Ctx, tweak: f
     out.count("S_probes", st.s_probes);
     out.count("completed_runs", st.completed as u64);
     out.count("rst_on_wire", st.rst_seen);
+    out.count("keep_alive_toggled_by_the_application", st.keep_alive_toggles);
     if st.storm {
         out.count("runs_cut_by_frame_storm", 1);
         if ctx.verbose {
